@@ -3,15 +3,18 @@
 package c01
 
 import (
+	"bufio"
 	"bytes"
 	"compress/gzip"
 	"crypto/sha256"
 	"encoding/hex"
 	"fmt"
+	"io"
 	"net"
 	"net/http"
 	"net/textproto"
 	"net/url"
+	"sort"
 	"strconv"
 	"strings"
 	"sync"
@@ -102,6 +105,8 @@ type Case struct {
 	// TLSOrigin: the origin is reached over TLS and every request names it in
 	// absolute-form with the scheme https (no CONNECT, no MITM involved).
 	TLSOrigin bool `json:"tls_origin,omitempty"`
+	// Bursts: see Sub.Bursts.
+	Bursts []int `json:"bursts,omitempty"`
 }
 
 // Sub is the script of one additional concurrent connection.
@@ -110,6 +115,8 @@ type Sub struct {
 	Mode      string     `json:"mode"`
 	Batch     int        `json:"batch,omitempty"`
 	HalfClose bool       `json:"half_close,omitempty"`
+	// Bursts (mode "bursts"): the sizes of consecutive pipelined bursts, used cyclically.
+	Bursts []int `json:"bursts,omitempty"`
 }
 
 // headNoLength: a HEAD exchange whose origin response carries neither a
@@ -122,6 +129,15 @@ func (e *Exchange) headNoLength() bool {
 		return !(e.Status == 304 && e.ResTEBodiless)
 	}
 	return e.ResFrame != "cl" && !e.ResTEBodiless
+}
+
+func (e *Exchange) hasHeader(name string) bool {
+	for _, h := range e.Headers {
+		if textproto.CanonicalMIMEHeaderKey(h.N) == name {
+			return true
+		}
+	}
+	return false
 }
 
 func (e *Exchange) closeMarked() bool {
@@ -144,8 +160,16 @@ type ChunkStyle struct {
 	ExtLast bool   `json:"ext_last,omitempty"`
 	// Pad: chunk sizes are written with leading zeros to this many hex digits (<= 16).
 	Pad int `json:"pad,omitempty"`
-	// Trailers is the trailer section after the last chunk (announced with Trailer:).
-	Trailers []Hdr `json:"trailers,omitempty"`
+	// Trailers is the trailer section after the last chunk, announced with
+	// Trailer: in the header section unless Unannounced (net/http's reader drops
+	// trailer fields that were not announced: those are generated, not compared).
+	Trailers    []Hdr `json:"trailers,omitempty"`
+	Unannounced bool  `json:"unannounced,omitempty"`
+}
+
+// announced reports whether the style carries trailer fields named in Trailer:.
+func (st *ChunkStyle) announced() bool {
+	return st != nil && len(st.Trailers) > 0 && !st.Unannounced
 }
 
 func (st *ChunkStyle) trailerNames() string {
@@ -187,6 +211,7 @@ func genStyle(t *rapid.T, label string) *ChunkStyle {
 			size := rapid.SampledFrom([]int{1, 4, 20, 100, 900}).Draw(t, label+"_trailer_size")
 			st.Trailers = append(st.Trailers, Hdr{N: []string{"X-Trail-A", "X-Trail-B", "X-Trail-Sum"}[i], V: string(kit.Text(uint64(size+i), size))})
 		}
+		st.Unannounced = rapid.IntRange(0, 4).Draw(t, label+"_unannounced") == 0
 	}
 	return st
 }
@@ -288,7 +313,7 @@ func (e *Exchange) wireRequest(id string) []byte {
 		b.Write(body)
 	case "chunked":
 		b.WriteString("Transfer-Encoding: chunked\r\n")
-		if e.ReqStyle != nil && len(e.ReqStyle.Trailers) > 0 {
+		if e.ReqStyle.announced() {
 			fmt.Fprintf(&b, "Trailer: %s\r\n", e.ReqStyle.trailerNames())
 		}
 		b.WriteString("\r\n")
@@ -352,7 +377,7 @@ func (e *Exchange) wireResponse() []byte {
 		b.Write(body)
 	case e.ResFrame == "chunked":
 		b.WriteString("Transfer-Encoding: chunked\r\n")
-		if e.ResStyle != nil && len(e.ResStyle.Trailers) > 0 {
+		if e.ResStyle.announced() {
 			fmt.Fprintf(&b, "Trailer: %s\r\n", e.ResStyle.trailerNames())
 		}
 		b.WriteString("\r\n")
@@ -457,6 +482,11 @@ func genExchange(t *rapid.T, maxBody int, last bool) Exchange {
 			e.ReqChunk = genChunks(t, "req_chunks")
 			e.ChunkExt = rapid.IntRange(0, 3).Draw(t, "chunk_ext") == 0
 			e.ReqStyle = genStyle(t, "req")
+			if e.ReqStyle.announced() && !e.hasHeader("User-Agent") && rapid.Bool().Draw(t, "user_agent_with_trailers") {
+				// requests with and without a User-Agent take different paths to the
+				// transport: both are drawn for requests that carry trailer fields
+				e.Headers = append(e.Headers, Hdr{N: "User-Agent", V: "verif-client/1.0"})
+			}
 		}
 	} else {
 		e.ReqFrame = "none"
@@ -659,6 +689,22 @@ func shape(e *Exchange) string {
 	return "any"
 }
 
+func trailerShape(e *Exchange) string {
+	if sh := shape(e); sh != "any" {
+		return sh
+	}
+	return "announced-trailer-fields"
+}
+
+func names(h http.Header) []string {
+	var out []string
+	for k := range h {
+		out = append(out, k)
+	}
+	sort.Strings(out)
+	return out
+}
+
 // shapeAt is the shape of exchange i as part of its script: what precedes it
 // on the connection and what the client does around it belong to the shape.
 func shapeAt(c *Sub, i int) string {
@@ -703,8 +749,82 @@ func lookup(subs []Sub, id string) *Exchange {
 	return &subs[k].Exchanges[i]
 }
 
+// originReq is what the origin saw for one request, trailer fields included
+// (netkit's own log does not keep them).
+type originReq struct {
+	netkit.ReqLog
+	Trailer http.Header
+}
+
+type recorder struct {
+	mu  sync.Mutex
+	log []originReq
+}
+
+func (rc *recorder) add(r *originReq) {
+	rc.mu.Lock()
+	r.Seq = len(rc.log)
+	rc.log = append(rc.log, *r)
+	rc.mu.Unlock()
+}
+
+func (rc *recorder) all() []originReq {
+	rc.mu.Lock()
+	defer rc.mu.Unlock()
+	return append([]originReq(nil), rc.log...)
+}
+
+// serveOrigin is netkit's origin loop for one connection (taken over through
+// AcceptHook) that also records the trailer fields of each request.
+func serveOrigin(idx int, c net.Conn, isTLS bool, rc *recorder, handler func(*netkit.ReqLog) netkit.Script, early func(*netkit.ReqLog) *netkit.Script) {
+	br := bufio.NewReaderSize(c, 64<<10)
+	for {
+		c.SetReadDeadline(time.Now().Add(90 * time.Second))
+		req, err := http.ReadRequest(br)
+		if err != nil {
+			return
+		}
+		head := netkit.ReqLog{Conn: idx, TLS: isTLS, Method: req.Method, RequestURI: req.RequestURI, Proto: req.Proto,
+			Path: req.URL.Path, RawQuery: req.URL.RawQuery, Host: req.Host, Header: req.Header,
+			TE: req.TransferEncoding, CL: req.ContentLength, Close: req.Close, BodyLen: -1}
+		if sc := early(&head); sc != nil {
+			rc.add(&originReq{ReqLog: head})
+			c.SetWriteDeadline(time.Now().Add(60 * time.Second))
+			if _, err := c.Write(sc.Raw); err != nil {
+				return
+			}
+			if _, err := io.Copy(io.Discard, req.Body); err != nil || sc.After == "close" {
+				return
+			}
+			continue
+		}
+		h := sha256.New()
+		n, berr := io.Copy(h, req.Body)
+		rl := originReq{ReqLog: head, Trailer: req.Trailer.Clone()}
+		rl.BodyLen, rl.BodySHA = int(n), hex.EncodeToString(h.Sum(nil)[:8])
+		if berr != nil {
+			rl.BodyErr = berr.Error()
+		}
+		rc.add(&rl)
+		if berr != nil {
+			return
+		}
+		sc := handler(&rl.ReqLog)
+		if sc.Delay > 0 {
+			time.Sleep(sc.Delay)
+		}
+		c.SetWriteDeadline(time.Now().Add(60 * time.Second))
+		if _, err := c.Write(sc.Raw); err != nil {
+			return
+		}
+		if sc.After == "close" {
+			return
+		}
+	}
+}
+
 func runOnce(c Case, T time.Duration) (v kit.Verdict) {
-	subs := append([]Sub{{Exchanges: c.Exchanges, Mode: c.Mode, Batch: c.Batch, HalfClose: c.HalfClose}}, c.Others...)
+	subs := append([]Sub{{Exchanges: c.Exchanges, Mode: c.Mode, Batch: c.Batch, HalfClose: c.HalfClose, Bursts: c.Bursts}}, c.Others...)
 	handler := func(r *netkit.ReqLog) netkit.Script {
 		e := lookup(subs, r.Header.Get("X-Verif-Id"))
 		if e == nil {
@@ -715,6 +835,22 @@ func runOnce(c Case, T time.Duration) (v kit.Verdict) {
 			sc.After = "close"
 		}
 		return sc
+	}
+	early := func(r *netkit.ReqLog) *netkit.Script {
+		e := lookup(subs, r.Header.Get("X-Verif-Id"))
+		if e == nil || !e.Early {
+			return nil
+		}
+		sc := &netkit.Script{Raw: e.wireResponse(), CutAt: -1}
+		if e.ResClose {
+			sc.After = "close"
+		}
+		return sc
+	}
+	rec := &recorder{}
+	hook := func(idx int, conn net.Conn) bool {
+		serveOrigin(idx, conn, c.TLSOrigin, rec, handler, early)
+		return true
 	}
 	var origin *netkit.Origin
 	if c.TLSOrigin {
@@ -729,17 +865,8 @@ func runOnce(c Case, T time.Duration) (v kit.Verdict) {
 	} else {
 		origin = netkit.NewOrigin(handler)
 	}
-	origin.Early = func(r *netkit.ReqLog) *netkit.Script {
-		e := lookup(subs, r.Header.Get("X-Verif-Id"))
-		if e == nil || !e.Early {
-			return nil
-		}
-		sc := &netkit.Script{Raw: e.wireResponse(), CutAt: -1}
-		if e.ResClose {
-			sc.After = "close"
-		}
-		return sc
-	}
+	// no connection can arrive before the proxy below is started
+	origin.AcceptHook = hook
 	defer origin.Close()
 	dialer := &netkit.Dialer{Route: func(string) string { return origin.Addr }}
 	p := martian.NewProxy()
@@ -772,9 +899,9 @@ func runOnce(c Case, T time.Duration) (v kit.Verdict) {
 		v = append(v, vv...)
 	}
 	pr.Stop(10 * time.Second)
-	log := origin.Log()
+	log := rec.all()
 	for k := range subs {
-		var mine []netkit.ReqLog
+		var mine []originReq
 		prefix := strconv.Itoa(k) + "."
 		for _, r := range log {
 			if strings.HasPrefix(r.Header.Get("X-Verif-Id"), prefix) {
@@ -871,7 +998,13 @@ func runConn(k int, c Sub, proxyAddr string, T time.Duration) (v kit.Verdict, re
 		step = c.Batch
 	}
 	readOK := true
-	for lo := 0; lo < n && readOK; lo += step {
+	for lo, b := 0, 0; lo < n && readOK; lo, b = lo+step, b+1 {
+		if c.Mode == "bursts" && len(c.Bursts) > 0 {
+			step = c.Bursts[b%len(c.Bursts)]
+			if step < 1 {
+				step = 1
+			}
+		}
 		hi := lo + step
 		if hi > n {
 			hi = n
@@ -939,6 +1072,13 @@ func runConn(k int, c Sub, proxyAddr string, T time.Duration) (v kit.Verdict, re
 			v.Addf("C01/response/"+shape(e)+"/"+class, "response %d: body read failed after %d of %d bytes: %v", i, len(r.Body), len(want), r.BodyErr)
 			break
 		}
+		if e.ResFrame == "chunked" && !e.bodiless() && e.ResStyle.announced() && !e.HTTP10 && !e.KeepAlive10 {
+			for name, want := range wantHeaders(e.ResStyle.Trailers) {
+				if !sameValues(r.Trailer[name], want) {
+					v.Addf("C01/response/"+trailerShape(e)+"/trailer-fields-differ", "response %d: client saw trailer %s = %.80q (trailer names %v), origin sent %.80q", i, name, r.Trailer[name], names(r.Trailer), want)
+				}
+			}
+		}
 		if !bytes.Equal(r.Body, want) {
 			v.Addf("C01/response/"+shape(e)+"/body-differs", "response %d (origin framing %s, %d bytes): %s", i, e.ResFrame, len(want), kit.Diff(want, r.Body))
 			break
@@ -971,7 +1111,7 @@ func runConn(k int, c Sub, proxyAddr string, T time.Duration) (v kit.Verdict, re
 }
 
 // checkOrigin compares what the origin received on behalf of connection k.
-func checkOrigin(k int, c Sub, results []got, log []netkit.ReqLog, strict bool) (v kit.Verdict) {
+func checkOrigin(k int, c Sub, results []got, log []originReq, strict bool) (v kit.Verdict) {
 	n := len(c.Exchanges)
 	if results == nil {
 		return nil
@@ -1015,6 +1155,15 @@ func checkOrigin(k int, c Sub, results []got, log []netkit.ReqLog, strict bool) 
 		if e.Early {
 			continue // the origin answered without waiting for the body
 		}
+		// trailer fields announced in Trailer: are header fields of the request,
+		// sent behind its body (RFC 7230 4.1.2)
+		if e.ReqFrame == "chunked" && e.ReqStyle.announced() {
+			for name, want := range wantHeaders(e.ReqStyle.Trailers) {
+				if !sameValues(r.Trailer[name], want) {
+					v.Addf("C01/request/"+trailerShape(e)+"/trailer-fields-differ", "request %d (%s, user-agent sent: %v): origin saw trailer %s = %.80q (trailer names %v), client sent %.80q", i, e.Method, e.hasHeader("User-Agent"), name, r.Trailer[name], names(r.Trailer), want)
+				}
+			}
+		}
 		if r.BodyLen != len(body) || r.BodySHA != sha(body) {
 			v.Addf("C01/request/"+shape(e)+"/body-differs", "request %d (%s, framing %s): origin read %d bytes (sha %s, err %q), client sent %d bytes (sha %s)", i, e.Method, e.ReqFrame, r.BodyLen, r.BodySHA, r.BodyErr, len(body), sha(body))
 		}
@@ -1041,6 +1190,9 @@ func styleFlags(flags map[string]bool, side string, st *ChunkStyle) {
 	}
 	if len(st.Trailers) > 0 {
 		flags["chunked-"+side+"-trailers"] = true
+	}
+	if st.announced() {
+		flags["chunked-"+side+"-trailers-announced"] = true
 	}
 }
 
@@ -1083,6 +1235,13 @@ func classes(c Case) []string {
 		if e.ReqFrame == "chunked" {
 			flags["chunked-request"] = true
 			styleFlags(flags, "request", e.ReqStyle)
+			if e.ReqStyle.announced() {
+				if e.hasHeader("User-Agent") {
+					flags["request-trailers+user-agent"] = true
+				} else {
+					flags["request-trailers+no-user-agent"] = true
+				}
+			}
 		}
 		if e.ResFrame == "chunked" && !e.bodiless() {
 			styleFlags(flags, "response", e.ResStyle)
@@ -1252,4 +1411,80 @@ func TestBusyConnection(t *testing.T) {
 	propBusy.Check(t, kit.N(2, 3))
 }
 
-func TestReplay(t *testing.T) { kit.Replay(t, propRelay, propBusy) }
+// ---------------------------------------------------------------- long keep-alive runs
+
+// LongCase: one connection carrying a long run of tiny exchanges, none of which
+// asks to close. The exchanges are derived from Seed (kit.Bytes), so the case
+// stays small however long the run is.
+type LongCase struct {
+	N      int    `json:"n"`
+	Seed   uint64 `json:"seed"`
+	Mode   string `json:"mode"` // seq | bursts | pipe
+	Bursts []int  `json:"bursts,omitempty"`
+	Shaped bool   `json:"shaped,omitempty"`
+}
+
+func (lc LongCase) expand() Case {
+	c := Case{Mode: lc.Mode, Bursts: lc.Bursts, Shaped: lc.Shaped}
+	b := kit.Bytes(lc.Seed, 6*lc.N)
+	for i := 0; i < lc.N; i++ {
+		d := b[6*i : 6*i+6]
+		e := Exchange{
+			Method: []string{"GET", "GET", "POST", "PUT", "DELETE", "HEAD", "OPTIONS", "PATCH"}[int(d[0])%8],
+			Form:   []string{"origin", "absolute"}[int(d[1])%2],
+			Host:   "origin.test", Target: fmt.Sprintf("/k/%d?i=%d", int(d[1])%7, i),
+			ReqFrame: "none", Status: []int{200, 200, 201, 204, 404, 304}[int(d[2])%6],
+			ResFrame: []string{"cl", "chunked", "none", "cl"}[int(d[3])%4],
+		}
+		if e.Method == "POST" || e.Method == "PUT" || e.Method == "PATCH" {
+			e.ReqFrame = []string{"cl", "chunked"}[int(d[4])%2]
+			e.ReqSize, e.ReqSeed = int(d[4])%9, uint64(i+1)
+		}
+		if !e.bodiless() && e.ResFrame != "none" {
+			e.ResSize, e.ResSeed = int(d[5])%9, uint64(i+7)
+		} else if e.Method == "HEAD" && e.ResFrame == "cl" {
+			e.ResSize = int(d[5])
+		}
+		if int(d[0])%16 == 9 {
+			e.Headers = []Hdr{{"X-Multi", "a"}, {"X-Multi", "b"}}
+		}
+		c.Exchanges = append(c.Exchanges, e)
+	}
+	return c
+}
+
+var propLong = &kit.Prop[LongCase]{
+	ID: "C01", Name: "long-keep-alive-run", Journal: true,
+	Rule: "one client connection carrying 99..300 tiny exchanges (mixed methods, bodies of 0..8 bytes, Content-Length/chunked/bodiless answers; run length drawn around 100/128/200/256 and up to 300), none asking to close, one at a time, in pipelined bursts of drawn sizes, or fully pipelined; same oracle per exchange as the relay check, including that no response announces Connection: close; non-trivial = at least 100 exchanges",
+	Gen: func(t *rapid.T) LongCase {
+		lc := LongCase{Seed: rapid.Uint64Range(1, 1<<30).Draw(t, "seed")}
+		if rapid.IntRange(0, 2).Draw(t, "edge") > 0 {
+			lc.N = rapid.SampledFrom([]int{100, 101, 128, 129, 200, 201, 256, 257, 300, 127, 255, 199, 99}).Draw(t, "n_edge")
+		} else {
+			lc.N = 100 + rapid.IntRange(0, 200).Draw(t, "n")
+		}
+		lc.Mode = rapid.SampledFrom([]string{"seq", "bursts", "bursts", "pipe"}).Draw(t, "mode")
+		if lc.Mode == "bursts" {
+			lc.Bursts = rapid.SliceOfN(rapid.SampledFrom([]int{2, 3, 7, 16, 33, 50, 64, 99, 100}), 1, 4).Draw(t, "bursts")
+		}
+		lc.Shaped = rapid.IntRange(0, 5).Draw(t, "shaped") == 0
+		return lc
+	},
+	Run:        func(lc LongCase) kit.Verdict { return run(lc.expand()) },
+	NonTrivial: func(lc LongCase) bool { return lc.N >= 100 },
+	Classes: func(lc LongCase) []string {
+		cl := []string{"mode-" + lc.Mode}
+		for _, mark := range []int{100, 128, 200, 256} {
+			if lc.N > mark {
+				cl = append(cl, fmt.Sprintf("run>%d", mark))
+			}
+		}
+		return cl
+	},
+}
+
+func TestLongRuns(t *testing.T) {
+	propLong.Check(t, kit.N(10, 6))
+}
+
+func TestReplay(t *testing.T) { kit.Replay(t, propRelay, propBusy, propLong) }
